@@ -630,4 +630,4 @@ def shrink(case):
 
 def streams(tier):
     th = tier == "thorough"
-    return [Stream("searches", gen(2000 if th else 220), check, shrink, timeout=120)]
+    return [Stream("searches", gen(5000 if th else 220), check, shrink, timeout=120)]
